@@ -143,6 +143,53 @@ example : LatticeLike (structQuads 3 3) [] (quadCoord 3) ∧ inner (structQuads 
 example : LatticeLike (structQuads 4 2) [6] (quadCoord 4) ∧ inner (structQuads 4 2) = [6, 7, 8] :=
   ⟨latticeLike_of_B _ _ _ (by decide +kernel), by decide +kernel⟩
 
+/-- **The lattice-like condition is exactly what is needed** (any grid, structured or not, in which the free inner
+    junctions have neighbours): the labelling `coord` has centrally symmetric neighbour stencils at every free inner
+    junction **iff** every affine image of it is left unchanged by smoothing.  So for an unstructured regular grid the
+    hypothesis of `T_C15_lattice_partial` cannot be weakened: it is equivalent to the conclusion. -/
+theorem T_C15_lattice_iff (g : Grid) (fixed : List Nat) (coord : Nat → V3) (hdef : defined g fixed = true) :
+    LatticeLike g fixed coord ↔
+      ∀ (o u v w : V3) (p : List V3), p.length = g.n →
+        (∀ n, n < g.n → pget p n = affineImg o u v w (coord n)) → smooth g fixed 1 p = p := by
+  constructor
+  · intro hl o u v w p _ hp
+    exact T_C15_lattice_partial g fixed coord o u v w p hl hp 1
+  · intro h j hj hf
+    obtain ⟨hlt, hbd⟩ := (mem_inner g j).mp hj
+    have hne : junctionNbrs g j ≠ [] := by
+      unfold defined at hdef
+      have := List.all_eq_true.mp hdef j hj
+      simpa [hf] using this
+    refine ⟨hne, ?_⟩
+    -- the identity image of the labelling
+    have hp : ∀ n, n < g.n → pget ((List.range g.n).map coord) n = affineImg V3.zero ⟨1, 0, 0⟩ ⟨0, 1, 0⟩ ⟨0, 0, 1⟩ (coord n) := by
+      intro n hn
+      unfold pget affineImg
+      simp only [List.getD_eq_getElem?_getD, List.getElem?_map, List.getElem?_range hn, Option.map_some, Option.getD_some]
+      apply V3.ext' <;> simp [V3.zero]
+    have hfix := h V3.zero ⟨1, 0, 0⟩ ⟨0, 1, 0⟩ ⟨0, 0, 1⟩ ((List.range g.n).map coord) (by simp) hp
+    have hid : ∀ n, n < g.n → pget ((List.range g.n).map coord) n = coord n := by
+      intro n hn
+      unfold pget
+      simp [List.getD_eq_getElem?_getD, List.getElem?_map, List.getElem?_range hn]
+    have hj' := (T_C15_fixpoint g fixed _).mp hfix j hlt hbd hf (by simpa using hlt)
+    have hmap : (junctionNbrs g j).map (pget ((List.range g.n).map coord)) = (junctionNbrs g j).map coord :=
+      List.map_congr_left (fun t ht => hid t ((mem_junctionNbrs g j t).mp ht).1)
+    rw [hid j hlt, hmap] at hj'
+    have hlen : ((junctionNbrs g j).length : Rat) ≠ 0 := by
+      have : (junctionNbrs g j).length ≠ 0 := fun h0 => hne (List.length_eq_zero_iff.mp h0)
+      exact_mod_cast this
+    unfold avg at hj'
+    rw [List.length_map] at hj'
+    rw [hj']
+    apply V3.ext' <;> simp <;> field_simp
+
+/-- non-vacuity of `T_C15_lattice_iff`: the hypothesis holds for the 3×3 map; and the labelling that puts point 5 off its
+    lattice place is *not* lattice-like (so, by the equivalence, some affine image of it is moved by smoothing) -/
+example : defined (structQuads 3 3) [] = true ∧
+    latticeLikeB (structQuads 3 3) [] (fun q => if q = 5 then ⟨5/4, 1, 0⟩ else quadCoord 3 q) = false := by
+  decide +kernel
+
 /-- the regular lattice: point `q` of the structured `nx × ny` map at `o + (q mod (nx+1))·u + (q div (nx+1))·v` -/
 def latticePts (nx ny : Nat) (o u v : V3) : List V3 :=
   (List.range ((nx + 1) * (ny + 1))).map (fun q => affineImg o u v V3.zero (quadCoord nx q))
@@ -699,7 +746,7 @@ example : Levelled (structQuads 3 3) [] (fun i => if i ∈ [5, 6, 9, 10] then 1 
   unfold Levelled; decide +kernel
 
 /-- … and the bound is met on a concrete run: 3×3 map, three interior points displaced by 1/4, distance 1/4 before and
-    11/64 ≤ (3/4)·(1/4) after one sweep -/
+    1/8 ≤ (3/4)·(1/4) after one sweep -/
 example :
     let g := structQuads 3 3
     let q := latticePts 3 3 ⟨0, 0, 0⟩ ⟨1, 0, 0⟩ ⟨0, 1, 0⟩
